@@ -72,7 +72,7 @@ pub fn gen_op(cx: &Cx, t: SignType, max_pages: u64) -> Op {
 /// ahead of time and twins agree): a slice iterator, or one of several lazy adaptors whose
 /// `size_hint` lower bound is 0 although they yield every page.
 fn iter_kind(pages: &[Page<'static>]) -> usize {
-    (pages.len() + pages.first().map(|p| usize::from(p.id().0)).unwrap_or(0)) % 5
+    (pages.len() + pages.first().map(|p| usize::from(p.id().0)).unwrap_or(0)) % 6
 }
 
 /// Like `apply`, but `probe` is called every time the page list is advanced (a caller's lazy page
@@ -111,6 +111,13 @@ pub fn apply(sign: &Sign, op: &Op) -> Outcome {
                 1 => cls(sign.send_pages(p.iter().filter(|_| true)), style),
                 2 => cls(sign.send_pages(p.iter().collect::<Vec<&Page<'static>>>()), style),
                 3 => cls(sign.send_pages(p.iter().skip_while(|_| false)), style),
+                4 => {
+                    // a list of references in which equal pages are ONE object listed several times
+                    // (`vec![&a, &b, &a]`): every listed item is to be sent, however the caller holds it
+                    let refs: Vec<&Page<'static>> =
+                        p.iter().map(|q| p.iter().find(|e| e.as_bytes() == q.as_bytes() && e.width() == q.width() && e.height() == q.height()).unwrap_or(q)).collect();
+                    cls(sign.send_pages(refs), style)
+                }
                 _ => cls(sign.send_pages(p.iter().chain(std::iter::empty())), style),
             }
         }
